@@ -442,3 +442,103 @@ def analyse_tu(tu):
                 stats={"functions": funcs, "newref_sources": sources,
                        "out_owned": {k: sorted(v) for k, v in outown.items()},
                        "newref_functions": len(newref)})
+
+
+# ---------------------------------------------------------------------------
+# SLOT-PAIR: ownership of key / value slots (object-keyed / -valued TUs)
+
+class SlotPair(Analysis):
+    """After COPY_KEY(slot, src) the slot holds one more reference than it
+    owns unless src is abandoned (the unused key slot 0 of an interior node
+    that hands its reference over): exactly one INCREF_KEY(slot) must follow
+    for a copy and none for a move, before the slot is overwritten or the
+    function returns.  Likewise for COPY_VALUE / INCREF_VALUE."""
+
+    track_flags = True
+    MACROS = {"COPY_KEY": "INCREF_KEY", "COPY_VALUE": "INCREF_VALUE"}
+
+    def __init__(self, cfg, tu):
+        Analysis.__init__(self, cfg, tu)
+        self.reports = []
+        self._seen = set()
+        self.stores = set()
+
+    @staticmethod
+    def _is_slot(p):
+        return p is not None and ("->" in p or "[" in p or "." in p)
+
+    @staticmethod
+    def _is_move_source(e):
+        t = text(e).replace(" ", "")
+        return t.endswith("->data->key") or t.endswith("->data[0].key")
+
+    def report(self, node, st, what, detail):
+        if (node.id, what) not in self._seen:
+            self._seen.add((node.id, what))
+            self.reports.append((node, st, what, detail))
+
+    def _close(self, node, st, slot, why):
+        need = sget(st, "k:" + slot)
+        if need is None:
+            return st
+        if need > 0:
+            self.report(node, st, "%s copied without INCREF (%s)" % (slot, why),
+                        "a key/value was copied into %s but the slot never "
+                        "acquired its own reference before %s: the object is "
+                        "released twice when both owners let go" % (slot, why))
+        elif need < 0:
+            self.report(node, st, "%s INCREF'd although the reference was moved (%s)" % (slot, why),
+                        "%s took over the reference parked in the unused key "
+                        "slot of the new sibling and was INCREF'd in addition: "
+                        "one surplus reference per split that is never "
+                        "released (leak)" % slot)
+        return sdel(st, "k:" + slot)
+
+    def on_node(self, node, st):
+        e = node.e
+        if e is None:
+            return [st]
+        for n in e.walk():
+            if n.k == "BinaryOperator" and n.v == "=" and n.mo in self.MACROS:
+                slot = path(n.kids[0])
+                if not self._is_slot(slot):
+                    continue
+                lt = (n.kids[0].t or "").strip()
+                if lt != "PyObject *":
+                    continue
+                st = self._close(node, st, slot, "overwritten")
+                self.stores.add(node.id)
+                st = sset(st, "k:" + slot, 0 if self._is_move_source(n.kids[1]) else 1)
+            elif n.k == "CallExpr" and callee(n) == ("fn", "Py_INCREF") and \
+                    n.mo in ("INCREF_KEY", "INCREF_VALUE") and len(n.kids) > 1:
+                slot = path(n.kids[1])
+                cur = sget(st, "k:" + slot) if slot else None
+                if cur is not None:
+                    st = sset(st, "k:" + slot, cur - 1)
+        return [st]
+
+    def check_exits(self):
+        for n in self.cfg.returns():
+            for st in self.IN.get(n.id, ()):
+                for k, v in list(st):
+                    if k.startswith("k:") and v != 0:
+                        self._close(n, st, k[2:], "return")
+
+
+def slot_pair(tu):
+    findings = []
+    stores = 0
+    for name in tu.order:
+        fn = tu.funcs[name]
+        if not any(n.k == "BinaryOperator" and n.mo in SlotPair.MACROS and
+                   (n.kids[0].t or "").strip() == "PyObject *" for n in fn.walk()):
+            continue
+        an = SlotPair(CFG(fn), tu)
+        an.solve()
+        an.check_exits()
+        stores += len(an.stores)
+        for node, st, what, detail in an.reports:
+            findings.append(dict(
+                rule="SLOT-PAIR", function=name, file=node.where.split(":")[0], line=node.line,
+                construct=what, detail=detail, path=witness_lines(an.witness(node, st))))
+    return dict(findings=findings, stores=stores)
